@@ -1375,12 +1375,12 @@ ctl('f5-inner-map-escapes', 'C09', 'F5', 'models/entity.go',
 		return nil
 	}
 """,
-    """	if len(s.innerOf(entityComponentTypeID)) == 0 {
+    """	if len(s.InnerOf(entityComponentTypeID)) == 0 {
 		return nil
 	}
-""", 'innerOf', 'an unexported getter hands out the live per-type map',
+""", 'InnerOf', 'an exported getter hands out the live per-type map (an unexported one that only runs under the lock and whose callers keep the map to themselves is accepted)',
     edits=[dict(file='models/entity.go', old='func (s *EntityComponentStore) ListAll() []*hagallpb.EntityComponent {',
-                new='func (s *EntityComponentStore) innerOf(t uint32) map[uint32]*hagallpb.EntityComponent {\n\tm := s.entityComponents[t]\n\treturn m\n}\n\nfunc (s *EntityComponentStore) ListAll() []*hagallpb.EntityComponent {')])
+                new='func (s *EntityComponentStore) InnerOf(t uint32) map[uint32]*hagallpb.EntityComponent {\n\tm := s.entityComponents[t]\n\treturn m\n}\n\nfunc (s *EntityComponentStore) ListAll() []*hagallpb.EntityComponent {')])
 # ---- round-2 rules
 for prop in ('C02', 'C04', 'C01'):
     ctl('b8-accepted-not-applied-' + prop.lower(), prop, 'B8', RT,
